@@ -203,7 +203,7 @@ THintCmp == /\ Is("hintcmp") /\ st = "open"
 \* the records every file holds before any damage, scanned with the package's reader from the closed database
 TDBase == /\ Is("dbase") /\ st = "closed"
           /\ orig' = E.files
-          /\ l' = l + 1 /\ UNCHANGED <<n, st, model, batch, rec, maxlim, mg, lastact, hist, nops>>
+          /\ l' = l + 1 /\ UNCHANGED <<n, st, model, batch, rec, maxlim, mg, lastact, hist, its, nops>>
 
 Ident(r) == <<r.k, r.v, r.t>>
 OrigOf(name) == LET S == {i \in 1..Len(orig) : orig[i].name = name} IN
